@@ -107,16 +107,18 @@ def splitTarget (t : Str) : Str × Str :=
   (t.takeWhile (· != 63), (t.dropWhile (· != 63)).drop 1)
 
 def handleDeco (d : Deco) (pat : C26.Pat) (m : Method) (target : Str) : Resp :=
-  let (path, query) := splitTarget target
-  match C26.capture pat path with
-  | none => .notRouted
-  | some g =>
-    match C26.decodeArg g with
-    | none => .badRequest
-    | some _ =>
-      match d with
-      | .rm => ofOut (removeslash m path query)
-      | .add => ofOut (addslash m path query)
-      | .auth li url sch proto host => ofOut (authenticated li m url sch target (fullUrl proto host target))
+  if ¬ C26.validTarget target then .badRequest     -- malformed request line (`parse_request_start_line`)
+  else
+    let (path, query) := splitTarget target
+    match C26.capture pat path with
+    | none => .notRouted
+    | some g =>
+      match C26.decodeArg g with
+      | none => .badRequest
+      | some _ =>
+        match d with
+        | .rm => ofOut (removeslash m path query)
+        | .add => ofOut (addslash m path query)
+        | .auth li url sch proto host => ofOut (authenticated li m url sch target (fullUrl proto host target))
 
 end TornadoModel.C28
